@@ -72,8 +72,9 @@ HAS_OUT = {'C_Digest', 'C_DigestFinal', 'C_Encrypt', 'C_EncryptUpdate', 'C_Encry
 ENDS = {'C_Digest', 'C_DigestFinal', 'C_Encrypt', 'C_EncryptFinal', 'C_Decrypt', 'C_DecryptFinal', 'C_Sign', 'C_SignFinal', 'C_Verify', 'C_VerifyFinal', 'C_FindObjectsFinal'}
 
 class Op:
-    def __init__(s, kind, m, mech, key, calls, tag=0, designed_fail=False):
+    def __init__(s, kind, m, mech, key, calls, tag=0, designed_fail=False, var=''):
         s.kind = kind; s.m = m; s.mech = mech; s.key = key; s.calls = calls; s.i = 0; s.tag = tag; s.designed_fail = designed_fail
+        s.var = var; s.cls = m.cls + var        # mechanism class + key-encoding class ('' = canonical import)
         s.tin = 0; s.tout = 0; s.done = []; s.outs = []; s.disturbed = False; s.L = None; s.maybe_gone = False; s.alldata = b''
 
 class Worker:
@@ -106,14 +107,40 @@ class Worker:
             try: mk(n, t)
             except AssertionError: pass
         for i in range(3): mk('data%d' % i, {'CKA_CLASS': ck.CKO_DATA, 'CKA_LABEL': b'd%d' % i, 'CKA_VALUE': b'v'})
+        # the same keys imported with NON-CANONICAL big-integer encodings (one leading 00 octet, as DER INTEGER contents copied verbatim):
+        # ~n0 = on CKA_MODULUS only, ~all0 / ~lz = on every big-integer component.  The true sizes (modulus, subprime) do not change.
+        BIG = ('CKA_MODULUS', 'CKA_PUBLIC_EXPONENT', 'CKA_PRIVATE_EXPONENT', 'CKA_PRIME_1', 'CKA_PRIME_2', 'CKA_EXPONENT_1', 'CKA_EXPONENT_2', 'CKA_COEFFICIENT', 'CKA_PRIME', 'CKA_SUBPRIME', 'CKA_BASE', 'CKA_VALUE')
+        def lz(t, only=None): return {a: (b'\x00' + v if a in BIG and isinstance(v, bytes) and (only is None or a in only) else v) for a, v in t.items()}
+        s.kvars = {'rsa': [''], 'dsa': [''], 'ec': ['']}
+        for fam, var, prv, pub in (('rsa', '~n0', lz(K.rsa_priv(ck), ['CKA_MODULUS']), lz(K.rsa_pub(ck), ['CKA_MODULUS'])), ('rsa', '~all0', lz(K.rsa_priv(ck)), lz(K.rsa_pub(ck))),
+                                   ('dsa', '~lz', lz(K.dsa_priv(ck)), lz(K.dsa_pub(ck))), ('ec', '~lz', lz(K.ec_priv(ck)), None)):
+            try:
+                mk(f'{fam}-priv{var}', prv)
+                if pub is not None: mk(f'{fam}-pub{var}', pub)
+            except AssertionError as e:
+                part.observe('non-canonical key import refused (variant left out)', {'key': fam + var, 'why': repr(e)[:120]}); s.keys.pop(f'{fam}-priv{var}', None); continue
+            # NOT a filter: a key whose undisturbed use fails may fail exactly because of a dishonest length (the size protocol judges it below)
+            s.kvars[fam].append(var)
+            if not s.variant_works(fam, var): part.observe('non-canonical key fails an undisturbed sign/verify with a 600-byte buffer (kept in the key set)', {'key': fam + var})
         s.table = [m for m in mech_table(ck) if s.selftest(m)]
         s.calls = 0
     # ---- keys / mechanisms
-    def keyfor(s, m, kind):
+    def keyfor(s, m, kind, var=''):
         if m.key is None: return None
         if m.key in ('aes', 'des3', 'generic'): return s.keys.get(m.key)
-        pub = kind in ('verify', 'encrypt')
-        return s.keys.get(m.key + ('-pub' if pub else '-priv'))
+        role = m.key + ('-pub' if kind in ('verify', 'encrypt') else '-priv')
+        return s.keys.get(role + var, s.keys.get(role))
+    def variant_works(s, fam, var):
+        """an undisturbed sign (+ verify / encrypt with the public twin of the variant) on the twin session"""
+        x = s.x; T = s.twin; mech = {'rsa': 'CKM_RSA_PKCS', 'dsa': 'CKM_DSA', 'ec': 'CKM_ECDSA'}[fam]; data = (b'\x01' * 20).hex()
+        if x.call('C_SignInit', s=T, mech=x.M(mech), key=s.keys[f'{fam}-priv{var}'])['rv'] != 0: return False
+        r = x.call('C_Sign', s=T, data=data, buf=600)
+        if r['rv'] != 0: s.reset_twin(); return False
+        pub = s.keys.get(f'{fam}-pub{var}')
+        if pub is not None:
+            if x.call('C_VerifyInit', s=T, mech=x.M(mech), key=pub)['rv'] != 0: return False
+            if x.call('C_Verify', s=T, data=data, sig=r['out']['data'])['rv'] != 0: return False
+        return True
     def build_mech(s, m):
         """-> (mechanism json, tag bytes)"""
         r = s.rnd; ck = s.ck; x = s.x; p = m.params
@@ -174,7 +201,9 @@ class Worker:
             return Op('find', M('find', 'find', ('find',)), None, None, calls)
         cands = [m for m in s.table if kind in m.ops]
         if not cands: return None
-        m = r.choice(cands); mech, tag = s.build_mech(m); key = s.keyfor(m, kind); fail = r.random() < 0.3
+        m = r.choice(cands); mech, tag = s.build_mech(m); fail = r.random() < 0.3
+        vs = s.kvars.get(m.key, ['']); var = r.choice(vs) if r.random() < 0.5 else ''
+        key = s.keyfor(m, kind, var)
         multi = m.multi and r.random() < 0.65
         # ---- input
         if m.sym:
@@ -211,7 +240,7 @@ class Worker:
             if fail and kind == 'sign' and m.maxin and m.cls == 'rsa-sign': data = s.rbytes(r.choice([m.maxin + 1, 129, 200]) if m.name != 'CKM_RSA_X_509' else r.choice([129, 200]))
         sig = None
         if kind == 'verify':
-            sig = s.twin_oneshot('sign', m, mech, data, key=s.keyfor(m, 'sign'))
+            sig = s.twin_oneshot('sign', m, mech, data, key=s.keyfor(m, 'sign', var))
             if sig is None: return None
             if fail: sig = r.choice([sig[:-1], sig + b'\x00', sig[:3] + bytes([sig[3] ^ 0x10]) + sig[4:], b''])
         # ---- calls
@@ -224,7 +253,7 @@ class Worker:
             calls = [dict(fn=fns[2], kw=dict(data=p.hex()), inlen=len(p)) for p in parts]
             if kind == 'digest' and r.random() < 0.15: calls.insert(r.randrange(len(calls) + 1), dict(fn='C_DigestKey', kw=dict(key=s.keys['generic']), inlen=0))
             calls.append(dict(fn=fns[3], kw=(dict(sig=sig.hex()) if kind == 'verify' else {}), inlen=0))
-        op = Op(kind, m, mech, key, calls, tag=tag, designed_fail=fail); op.alldata = data; return op
+        op = Op(kind, m, mech, key, calls, tag=tag, designed_fail=fail, var=var); op.alldata = data; return op
     # ---- oracle plumbing
     def V(s, fn, icls, outcome, what, **wit):
         wit.update(seed=s.job['seed'], config=s.job['cfg'], trace=s.x.trace_path, interleaving=s.cur, history_tail=s.hist[-14:])
@@ -258,11 +287,11 @@ class Worker:
         r = s.continue_call(op, S['h'])
         step = 'probe-after-' + how
         if r['rvname'] != NOINIT:
-            s.V(endfn or r['fn'], f'{op.m.cls},{op.kind},{how}' + (f':{rvname}' if rvname and how == 'failure' else ''), 'operation-still-active',
+            s.V(endfn or r['fn'], f'{op.cls},{op.kind},{how}' + (f':{rvname}' if rvname and how == 'failure' else ''), 'operation-still-active',
                 f'the {op.kind} operation ({op.m.name}) ended with {endfn} ({how}{": " + rvname if rvname else ""}) but the next {r["fn"]} returned {r["rvname"]} instead of CKR_OPERATION_NOT_INITIALIZED', mech=op.m.name, probe=r['fn'], probe_rv=r['rvname'])
             # get rid of whatever is there
             s.x.call('C_CloseSession', s=S['h']); S['h'] = s.x.call('C_OpenSession', slot=s.slot)['h']
-        s.case(op.kind, op.m.cls, step, 'none')
+        s.case(op.kind, op.cls, step, 'none')
         if op.disturbed: s.run_twin(op)
     def run_twin(s, op):
         """replay the completed calls of a disturbed operation, undisturbed, on the twin session and compare"""
@@ -279,11 +308,11 @@ class Worker:
         main_rvs = [rv for _, rv, _ in op.done]; main_out = b''.join(o for _, _, o in op.done if o is not None); twin_out = b''.join(outs)
         twin_ended = bool(rvs) and (rvs[-1] != OK or op.done[len(rvs) - 1][0]['fn'] in ENDS)
         if not twin_ended: s.reset_twin()          # the replay left an operation open on the twin session
-        icls = f'{op.m.cls},{op.kind},disturbed'
+        icls = f'{op.cls},{op.kind},disturbed'
         part.count('twin_runs')
         if rvs != main_rvs[:len(rvs)] or len(rvs) != len(main_rvs):
             s.V(fns[3] or fns[1], icls, 'return-codes-differ-from-twin', f'a {op.kind} operation ({op.m.name}) that was disturbed by size queries / too-small buffers answered {main_rvs}, the undisturbed twin {rvs}', mech=op.m.name, mechanism=op.mech, calls=[(c['fn'], c['kw']) for c, _, _ in op.done])
-            s.case(op.kind, op.m.cls, 'twin', 'none'); return
+            s.case(op.kind, op.cls, 'twin', 'none'); return
         if main_rvs and main_rvs[-1] == OK and op.kind != 'verify':
             if not op.m.rand or op.kind == 'decrypt':       # decryption is deterministic also for randomised encryption schemes
                 if main_out != twin_out:
@@ -292,14 +321,14 @@ class Worker:
                 good = s.semantic_check(op, main_out)
                 if good is False:
                     s.V(fns[3] or fns[1], icls, 'result-does-not-verify', f'the output of a disturbed {op.kind} operation ({op.m.name}, randomised) does not verify/decrypt', mech=op.m.name, mechanism=op.mech, got=main_out.hex())
-        s.case(op.kind, op.m.cls, 'twin', 'none')
+        s.case(op.kind, op.cls, 'twin', 'none')
     def semantic_check(s, op, out):
         if op.kind == 'sign':
-            r = s.x.call('C_VerifyInit', s=s.twin, mech=op.mech, key=s.keyfor(op.m, 'verify'))
+            r = s.x.call('C_VerifyInit', s=s.twin, mech=op.mech, key=s.keyfor(op.m, 'verify', op.var))
             if r['rv'] != 0: return None
             r = s.x.call('C_Verify', s=s.twin, data=op.alldata.hex(), sig=out.hex()); return r['rv'] == 0
         if op.kind == 'encrypt':
-            r = s.x.call('C_DecryptInit', s=s.twin, mech=op.mech, key=s.keyfor(op.m, 'decrypt'))
+            r = s.x.call('C_DecryptInit', s=s.twin, mech=op.mech, key=s.keyfor(op.m, 'decrypt', op.var))
             if r['rv'] != 0: return None
             r = s.x.call('C_Decrypt', s=s.twin, data=out.hex(), buf=256)
             if r['rv'] != 0: return False
@@ -327,12 +356,12 @@ class Worker:
                 if cap != A: kw['announce'] = A
         q = s.call(fn, s=sess, **kw); rv = q['rvname']; o = q.get('out')
         sample = {'call': fn, 'mech': op.m.name, 'buffer': bufcls, 'announced': A, 'bound': bnd, 'rv': rv, 'reported': (o or {}).get('len'), 'buffered_before': op.tin - op.tout if op.m.sym else None}
-        icls = f'{op.m.cls},{bufcls}' + ((',buffered=0' if op.tin == op.tout else ',buffered>0') if op.m.sym else '')
+        icls = f'{op.cls},{bufcls}' + ((',buffered=0' if op.tin == op.tout else ',buffered>0') if op.m.sym else '')
         if rv == NOINIT:
             if op.maybe_gone:
                 s.part.observe('operation was dropped by an argument rejection (narrow reading: observation)', {'mech': op.m.name, 'call': fn}); S['op'] = None; S['state'] = 'none'; return
-            s.V(fn, f'{op.m.cls},{op.kind},' + ('after-size-query-or-too-small' if op.disturbed else 'undisturbed'), 'operation-gone', f'{fn} on a session whose {op.kind} operation ({op.m.name}) was started and neither finished nor failed returned CKR_OPERATION_NOT_INITIALIZED' + (' after a size query / too-small buffer' if op.disturbed else ''), mech=op.m.name, disturbed=op.disturbed, done=[(c_['fn'], rv_) for c_, rv_, _ in op.done])
-            S['op'] = None; S['state'] = 'none'; s.case(op.kind, op.m.cls, step, bufcls, sample=sample); return
+            s.V(fn, f'{op.cls},{op.kind},' + ('after-size-query-or-too-small' if op.disturbed else 'undisturbed'), 'operation-gone', f'{fn} on a session whose {op.kind} operation ({op.m.name}) was started and neither finished nor failed returned CKR_OPERATION_NOT_INITIALIZED' + (' after a size query / too-small buffer' if op.disturbed else ''), mech=op.m.name, disturbed=op.disturbed, done=[(c_['fn'], rv_) for c_, rv_, _ in op.done])
+            S['op'] = None; S['state'] = 'none'; s.case(op.kind, op.cls, step, bufcls, sample=sample); return
         # ---- buffer discipline
         if o is not None and not o.get('null', True):
             rep = o['len']
@@ -351,7 +380,7 @@ class Worker:
             rep = o['len']
             if (kw.get('buf') is None or rv == SMALL):
                 # a length answer: honest?  (input class: how it was asked, empty/non-empty input, empty/non-empty internal buffer)
-                lcls = f'{op.m.cls},{"query" if kw.get("buf") is None else "too-small"}' + ((',in=0' if c['inlen'] == 0 else ',in>0') + (',buffered=0' if op.tin == op.tout else ',buffered>0') if op.m.sym else '')
+                lcls = f'{op.cls},{"query" if kw.get("buf") is None else "too-small"}' + ((',in=0' if c['inlen'] == 0 else ',in>0') + (',buffered=0' if op.tin == op.tout else ',buffered>0') if op.m.sym else '')
                 if rv == SMALL and A is not None and L is not None and A >= L:
                     s.V(fn, lcls, 'length-insufficient', f'{fn} ({op.m.name}) had reported {L} as sufficient but answered CKR_BUFFER_TOO_SMALL to a buffer of {A}', mech=op.m.name, reported_before=L, announced=A, reported=rep)
                 if rv == SMALL and A is not None and rep <= A:
@@ -359,24 +388,24 @@ class Worker:
                 if rep > bnd:
                     s.V(fn, lcls, 'length>bound' if rep < (1 << 62) else 'length=2^64-ish', f'{fn} ({op.m.name}) reported a needed length of {rep}; the statement allows at most {bnd} (input {c["inlen"]} + buffered {op.tin - op.tout if op.m.sym else 0} + block + tag, resp. the fixed size)', mech=op.m.name, mechanism=op.mech, reported=rep, bound=bnd, calls_done=[(c_['fn'], c_['inlen'], rv_) for c_, rv_, _ in op.done])
                     # no buffer can be sized from such an answer: give the operation up (its session is replaced)
-                    s.case(op.kind, op.m.cls, step, bufcls, sample=sample); s.part.count('operations_abandoned_after_dishonest_length')
+                    s.case(op.kind, op.cls, step, bufcls, sample=sample); s.part.count('operations_abandoned_after_dishonest_length')
                     s.x.call('C_CloseSession', s=S['h']); S['h'] = s.x.call('C_OpenSession', slot=s.slot)['h']; S['op'] = None; S['state'] = 'none'; return
                 op.L = rep; op.disturbed = True; s.part.count('disturbances')
-                s.case(op.kind, op.m.cls, step, bufcls, sample=sample); return     # operation must still be active and unchanged: decided by what follows
+                s.case(op.kind, op.cls, step, bufcls, sample=sample); return     # operation must still be active and unchanged: decided by what follows
         if rv in ARG_REJECTIONS:
             s.part.observe('argument rejection on an active operation (operation kept: observation only)', {'call': fn, 'mech': op.m.name, 'rv': rv}); op.maybe_gone = True; op.i += 1
             if op.i >= len(op.calls): S['state'] = 'unknown'
-            s.case(op.kind, op.m.cls, step, bufcls, nontrivial=False); return
+            s.case(op.kind, op.cls, step, bufcls, nontrivial=False); return
         # ---- the call completed: success or failure
         out = bytes.fromhex(o['data']) if (o is not None and rv == OK and 'data' in o) else None
         op.done.append((c, rv, out)); op.L = None
         if rv == OK:
             op.tin += c['inlen']; op.tout += len(out or b''); op.i += 1
-            s.case(op.kind, op.m.cls, step, bufcls, sample=sample)
+            s.case(op.kind, op.cls, step, bufcls, sample=sample)
             if fn in ENDS: s.part.count('operations_finished'); s.finished(S, 'success', endfn=fn)
             return
         s.part.count('operations_failed'); s.part.count('failed_rv_' + rv)
-        s.case(op.kind, op.m.cls, step + '-failing', bufcls, sample=sample)
+        s.case(op.kind, op.cls, step + '-failing', bufcls, sample=sample)
         s.finished(S, 'failure', rv, endfn=fn)
     # ---- steps on idle / active sessions
     def idle_step(s, S):
@@ -385,12 +414,12 @@ class Worker:
             op = s.new_op()
             if op is None: return
             q = s.call(KIND_FNS[op.kind][0], **s.init_kw(op, sess))
-            if q['rv'] == 0: S['op'] = op; S['state'] = 'active'; s.case(op.kind, op.m.cls, 'init', 'none'); s.part.count('operations_started'); return
+            if q['rv'] == 0: S['op'] = op; S['state'] = 'active'; s.case(op.kind, op.cls, 'init', 'none'); s.part.count('operations_started'); return
             if q['rvname'] == ACTIVE:
-                s.V(KIND_FNS[op.kind][0], f'{op.m.cls},idle-session', 'refused:CKR_OPERATION_ACTIVE', f'{KIND_FNS[op.kind][0]} on a session without an active operation returned CKR_OPERATION_ACTIVE', mech=op.m.name)
+                s.V(KIND_FNS[op.kind][0], f'{op.cls},idle-session', 'refused:CKR_OPERATION_ACTIVE', f'{KIND_FNS[op.kind][0]} on a session without an active operation returned CKR_OPERATION_ACTIVE', mech=op.m.name)
                 s.x.call('C_CloseSession', s=sess); S['h'] = s.x.call('C_OpenSession', slot=s.slot)['h']
             else: s.part.observe('Init refused on an idle session (not this property)', {'mech': op.m.name, 'kind': op.kind, 'rv': q['rvname']})
-            s.case(op.kind, op.m.cls, 'init', 'none', nontrivial=False); return
+            s.case(op.kind, op.cls, 'init', 'none', nontrivial=False); return
         # continue without Init: exactly CKR_OPERATION_NOT_INITIALIZED
         kind = r.choice(list(KIND_FNS)); which = r.choice(['update', 'final', 'one-shot', 'digestkey'])
         s.expect_noinit(sess, kind, which, 'no-init')
@@ -417,7 +446,7 @@ class Worker:
             if other is None: return
             q = s.call(KIND_FNS[other.kind][0], **s.init_kw(other, sess))
             if q['rvname'] != ACTIVE:
-                s.V(KIND_FNS[other.kind][0], f'while-{op.kind}-active({op.m.cls})' + (',after-size-query-or-too-small' if op.disturbed else ''), 'not-CKR_OPERATION_ACTIVE:' + q['rvname'], f'{KIND_FNS[other.kind][0]} ({other.m.name}) on a session with an active {op.kind} operation ({op.m.name}) returned {q["rvname"]}', active=op.m.name, second=other.m.name)
+                s.V(KIND_FNS[other.kind][0], f'while-{op.kind}-active({op.cls})' + (',after-size-query-or-too-small' if op.disturbed else ''), 'not-CKR_OPERATION_ACTIVE:' + q['rvname'], f'{KIND_FNS[other.kind][0]} ({other.m.name}) on a session with an active {op.kind} operation ({op.m.name}) returned {q["rvname"]}', active=op.m.name, second=other.m.name)
                 if q['rv'] == 0: s.x.call('C_CloseSession', s=sess); S['h'] = s.x.call('C_OpenSession', slot=s.slot)['h']; S['op'] = None; S['state'] = 'none'
             s.case(other.kind, other.m.cls, 'second-init:' + op.kind, 'none'); return
         if x < 0.23:
@@ -431,7 +460,7 @@ class Worker:
         if x < 0.30 and not op.m.multi and op.kind in ('encrypt', 'decrypt'):
             fn = KIND_FNS[op.kind][r.choice([2, 3])]; q = s.call(fn, s=sess, **({'data': '00' * 16} if fn.endswith('Update') else {}), buf=256)
             s.part.observe('multi-part call on a single-part-only cipher operation', {'call': fn, 'mech': op.m.name, 'rv': q['rvname']}); op.maybe_gone = True
-            s.case(op.kind, op.m.cls, 'arg-rejection', 'real', nontrivial=False); return
+            s.case(op.kind, op.cls, 'arg-rejection', 'real', nontrivial=False); return
         s.plan_step(S)
     def resolve_unknown(s, S):
         """after an argument rejection on the last call: end whatever is there; afterwards nothing may be active"""
@@ -466,7 +495,7 @@ def work(job):
     part = Part(); job['ck'] = CK(job['hdr']); w = None
     try:
         w = Worker(job, part)
-        if job['first']: part.observe('mechanisms exercised', {'config': job['cfg'], 'n': len(w.table), 'names': sorted({m.name + '/' + m.cls for m in w.table})}, cap=4)
+        if job['first']: part.observe('mechanisms exercised', {'config': job['cfg'], 'n': len(w.table), 'names': sorted({m.name + '/' + m.cls for m in w.table}), 'key_encodings': w.kvars}, cap=4)
         for i in range(job['n']): w.interleaving(i)
     except Died as e:
         part.observe('side:C17 library terminated the host', {'kind': e.kind(), 'fn': e.fn, 'where': e.where(), 'seed': job['seed'], 'history_tail': getattr(w, 'hist', [])[-6:]}); part.inconc(f'executor died ({e.kind()} in {e.fn}) seed={job["seed"]}')
